@@ -62,12 +62,15 @@ Proof. vm_compute. reflexivity. Qed.
 Example truncated_body_rejected :
   open_doc walkers entry false [TStart "document" true; TStart "body" true; TStart "p" true; TStart "r" true] = OpenErr.
 Proof. vm_compute. reflexivity. Qed.
+(* an ordinary document opens, and the elements the reader reacts to are these, in this order (the names of the reader
+   functions that react are left out: they are not part of the behaviour); the run and the table directly in the body's
+   run are skipped *)
 Example ordinary_document_opens :
-  open_doc walkers entry true
+  match open_doc walkers entry true
     (doc_tokens true [TStart "body" true; TStart "p" true; TStart "r" true; TStart "t" true; TOther; TEnd "t"; TEnd "r"; TEnd "p";
                       TStart "tbl" true; TStart "tr" true; TStart "tc" true; TStart "p" true; TEnd "p"; TEnd "tc"; TEnd "tr"; TEnd "tbl";
-                      TStart "r" true; TStart "tbl" true; TEnd "tbl"; TEnd "r"; TEnd "body"])
-  = OpenOk [("parseDocument", "document"); ("parseDocumentElement", "body");
-            ("parseBodySubElement", "p"); ("parseParagraph", "r"); ("parseRun", "t");
-            ("parseBodySubElement", "tbl"); ("parseTable", "tr"); ("parseTableRow", "tc"); ("parseTableCell", "p")].
+                      TStart "r" true; TStart "tbl" true; TEnd "tbl"; TEnd "r"; TEnd "body"]) with
+  | OpenOk hits => map snd hits = ["document"; "body"; "p"; "r"; "t"; "tbl"; "tr"; "tc"; "p"]
+  | _ => False
+  end.
 Proof. vm_compute. reflexivity. Qed.
